@@ -3,6 +3,8 @@
 int __CPROVER_uninterpreted_utf8_len(int id);
 char *gh_utf8_store;   /* QBA_MAX unspecified bytes, allocated by the harness */
 #define UTF8_LEN(s) (__CPROVER_uninterpreted_utf8_len((s)->id))
+int __CPROVER_uninterpreted_utf16_len(int id);
+static inline int QString_utf16_len(const QString *s) { int n = __CPROVER_uninterpreted_utf16_len(s->id); __CPROVER_assume(0 <= n && n <= QBA_MAX); return n; }
 static inline void QString_toUtf8(QByteArray *r, const QString *s) { int n = UTF8_LEN(s); __CPROVER_assume(0 <= n && n <= QBA_MAX); QByteArray_ctor(r); r->n = n; r->vlen = n; r->src = gh_utf8_store; }
 static const QByteArray QByteArray_empty;
 /* ghost: where the integrity / fingerprint attributes start, and what the oracles were asked */
